@@ -17,7 +17,7 @@ def showTree : Option Int → String
   | none => "none"
 
 /-- `N` = None -/
-def optInt? (s : String) : Option (Option Int) := if s = "N" then some none else s.toInt?.map some
+def optIntPF? (s : String) : Option (Option Int) := if s = "N" then some none else s.toInt?.map some
 
 /-- one operation of the `gpopfront` protocol: `g:k` `pop[k]`, `l:k` `pop.trees.load(k)`, `i` `list(pop)`, `n` `len(pop)`,
 `s:a:b:c:k` `sl = pop[a:b:c]; (len(sl), sl[k])` -/
@@ -41,7 +41,7 @@ def gPopStep (st : Population × List Int) (tok : String) : (Population × List 
   | ["n"] => match pop_len st.1 with
     | some n => (st, s!"[{n}]")
     | none => (st, "E")
-  | ["s", a, b, c, k] => match optInt? a, optInt? b, optInt? c, k.toInt? with
+  | ["s", a, b, c, k] => match optIntPF? a, optIntPF? b, optIntPF? c, k.toInt? with
     | some a, some b, some c, some key => match pop_getitem_slice st.1 (a, b, c) with
       | none => (st, "V")                                   -- ValueError (step 0)
       | some sl => match nestl_len sl, nestl_getitem Pop.readLog sl key st.2 with
